@@ -149,7 +149,12 @@
  * Initial and minimal size of the hashtable expressed as a power of 2.
  * The initial size is 2^TOMMY_HASHLIN_BIT.
  */
+#if defined(RTRLIB_VERIF) && defined(RTRLIB_VERIF_HASHLIN_BIT)
+/* verification hook: small initial table so that the resize steps run within small bounds */
+#define TOMMY_HASHLIN_BIT RTRLIB_VERIF_HASHLIN_BIT
+#else
 #define TOMMY_HASHLIN_BIT 6
+#endif
 
 /**
  * Hashtable node.
